@@ -171,22 +171,34 @@ def load_configs(keys, repo=None):
 # ---------------------------------------------------------------------------
 
 
-def _canon(path, krate):
-    """`std::` is a re-export facade: name items by their defining crate so that paths are
-    identical in std and no_std configurations."""
-    if krate in ("core", "alloc") and path.startswith("std::"):
-        return krate + path[3:]
-    if krate in ("core", "alloc") and path.startswith("<std::"):
-        return "<" + krate + path[4:]
+import re
+
+_CORE_MODS = ("default|ops|convert|option|result|cmp|clone|marker|fmt|iter|slice|array|str|num|mem|ptr|hint|arch|"
+              "intrinsics|panicking|hash|any|cell|char|primitive|error|ascii|f32|f64|u8|u16|u32|u64|usize|i32|ffi|alloc")
+_ALLOC_MODS = "vec|string|boxed|borrow|rc"
+_RE_CORE = re.compile(r"\bstd::(%s)::" % _CORE_MODS)
+_RE_ALLOC = re.compile(r"\bstd::(%s)::" % _ALLOC_MODS)
+
+
+def _canon(path, krate=None):
+    """`std::` is a re-export facade: name core/alloc items by their defining crate so that
+    paths are identical in std and no_std configurations."""
+    if "std::" not in path:
+        return path
+    if krate == "core":
+        return path.replace("std::", "core::")
+    path = _RE_CORE.sub(lambda m: "core::%s::" % m.group(1), path)
+    path = _RE_ALLOC.sub(lambda m: "alloc::%s::" % m.group(1), path)
     return path
 
 
 def _canon_paths(x):
     if isinstance(x, dict):
-        if "path" in x and "krate" in x and isinstance(x["path"], str):
-            x["path"] = _canon(x["path"], x["krate"])
-        if "trait" in x and "trait_krate" in x and isinstance(x["trait"], str):
-            x["trait"] = _canon(x["trait"], x["trait_krate"])
+        for k in ("path", "trait", "impl", "trait_item", "parent", "in_trait"):
+            if isinstance(x.get(k), str):
+                x[k] = _canon(x[k], x.get("krate") if k == "path" else None)
+        if isinstance(x.get("s"), str) and "k" in x:
+            x["s"] = _canon(x["s"])
         for v in x.values():
             _canon_paths(v)
     elif isinstance(x, list):
